@@ -37,7 +37,10 @@ FailKinds == {"err-nested-calls", "err-in-top-loop", "err-in-nested-loops", "pan
               \* a call written directly at the top level that fails while its arguments are bound (count, constant parameter)
               "arity-error-top-call", "param-bind-error-top-call",
               \* failures while a macro BODY is evaluated during expansion (its own evaluator state)
-              "depth-overflow-in-macro-body", "error-in-macro-body", "deadline-in-macro-body"}
+              "depth-overflow-in-macro-body", "error-in-macro-body", "deadline-in-macro-body",
+              \* a panic after output was captured inside a call; inside a function of the grol-written library (its frames hang
+              \* off another root environment); inside code run by eval() (a nested evaluation in the same state)
+              "print-then-panic-in-function", "depth-overflow-in-library-function", "depth-overflow-in-eval", "panic-in-eval"}
 
 VARIABLES writer, scope, depth, regs, macro, clean, hist
 vars == <<writer, scope, depth, regs, macro, clean, hist>>
@@ -60,7 +63,8 @@ RECURSIVE After(_, _, _)
 After(k, n, st) ==
   IF n = 0 THEN st
   ELSE LET w == IF k \in {"panic-in-function", "depth-overflow", "memory-guard", "panic-in-top-loop",
-                          "arity-error-top-call", "param-bind-error-top-call"} /\ ~WriterRestored THEN "dead" ELSE st[1]
+                          "arity-error-top-call", "param-bind-error-top-call", "print-then-panic-in-function",
+                          "depth-overflow-in-library-function", "depth-overflow-in-eval", "panic-in-eval"} /\ ~WriterRestored THEN "dead" ELSE st[1]
            m == IF k = "depth-overflow-in-macro-body" /\ ~MacroStateFresh THEN 1 ELSE st[3]
            r == IF k \in {"err-in-top-loop", "err-in-nested-loops", "panic-in-top-loop"} /\ ~LoopReleases
                 THEN (IF st[2] + 1 > NumRegisters THEN NumRegisters ELSE st[2] + 1) ELSE st[2]
